@@ -5,6 +5,18 @@ import Mathlib.LinearAlgebra.Matrix.NonsingularInverse
 import Mathlib.LinearAlgebra.Matrix.PosDef
 import Mathlib.Analysis.Matrix.PosDef
 import Mathlib.Analysis.SpecialFunctions.Pow.Real
+import Mathlib.Probability.Distributions.Gaussian.Real
+import Mathlib.MeasureTheory.Integral.Pi
+import Mathlib.MeasureTheory.Integral.Gamma
+import Mathlib.MeasureTheory.Measure.Lebesgue.EqHaar
+import Mathlib.RingTheory.Norm.Transitivity
+import Mathlib.RingTheory.Complex
+import Mathlib.Analysis.Matrix.Order
+import Mathlib.MeasureTheory.Constructions.HaarToSphere
+import Mathlib.MeasureTheory.Integral.Prod
+import Mathlib.MeasureTheory.Measure.Haar.InnerProductSpace
+import Mathlib.Analysis.InnerProductSpace.PiL2
+import Mathlib.LinearAlgebra.Complex.FiniteDimensional
 import Mathlib.Tactic
 /-! Helper lemmas for property C07 (`Props/C07.lean`): bridges from the executable folds of `Model/Dist.lean` to
 Mathlib's `∑`, `∏`, `^`, `!`, and the algebra behind each closed form. -/
@@ -317,13 +329,16 @@ theorem spread_bound (eps : ℝ) (heps : 0 ≤ eps) : ∀ l : List ℝ, List.IsC
 
 /-! ### complex Bingham: families indexed by `Fin D` -/
 
+theorem getD_of_lt (l : List ℝ) (i : ℕ) (h : i < l.length) : l.getD i 0 = l[i] := by
+  simp [List.getD_eq_getElem?_getD, List.getElem?_eq_getElem h]
+
 theorem ofFn_getD {D : Nat} (l : List ℝ) (h : l.length = D) :
     List.ofFn (fun j : Fin D => l.getD j.val 0) = l := by
   subst h
   apply List.ext_getElem
   · simp
   · intro i h1 h2
-    simp [List.getD_eq_getElem _ _ h2]
+    simp only [List.getElem_ofFn, getD_of_lt _ _ h2]
 
 theorem sorted_list_length {D : Nat} (lam : Fin D → ℝ) : (sortAsc (List.ofFn lam)).length = D := by
   rw [sortAsc_length, List.length_ofFn]
@@ -351,11 +366,11 @@ theorem sortedFam_mono {D : Nat} (lam : Fin D → ℝ) : Monotone (sortedFam lam
     have hi : i.val < (sortAsc (List.ofFn lam)).length := by rw [sorted_list_length]; exact i.isLt
     have hj : j.val < (sortAsc (List.ofFn lam)).length := by rw [sorted_list_length]; exact j.isLt
     have := hs i.val j.val hi hj hlt
-    simpa [sortedFam, List.getD_eq_getElem _ _ hi, List.getD_eq_getElem _ _ hj] using this
+    simpa only [sortedFam, getD_of_lt _ _ hi, getD_of_lt _ _ hj] using this
 
 theorem getD_chain {R : ℝ → ℝ → Prop} {l : List ℝ} (h : List.IsChain R l) (i : ℕ) (hi : i + 1 < l.length) :
     R (l.getD i 0) (l.getD (i + 1) 0) := by
-  rw [List.getD_eq_getElem _ _ hi, List.getD_eq_getElem _ _ (Nat.lt_of_succ_lt hi)]
+  rw [getD_of_lt _ _ hi, getD_of_lt _ _ (Nat.lt_of_succ_lt hi)]
   exact h.getElem i hi
 
 /-- consecutive spread eigenvalues differ by at least `eps` -/
@@ -397,7 +412,7 @@ theorem removeDup_eq_sorted {D : Nat} (eps : ℝ) (lam : Fin D → ℝ)
     intro i hi
     have hD : i + 1 < D := by rwa [sorted_list_length] at hi
     have := hg ⟨i, Nat.lt_of_succ_lt hD⟩ hD
-    simpa [sortedFam, List.getD_eq_getElem _ _ hi, List.getD_eq_getElem _ _ (Nat.lt_of_succ_lt hi)] using this
+    simpa only [sortedFam, getD_of_lt _ _ hi, getD_of_lt _ _ (Nat.lt_of_succ_lt hi)] using this
   funext j
   simp only [removeDup, sortedFam, spread_fixed eps _ hch]
 
@@ -431,5 +446,979 @@ theorem binghamNormRaw_closed {D : Nat} (lam : Fin D → ℝ) :
   congr 1
   refine Finset.sum_congr rfl fun j _ => ?_
   rw [one_div, inv_mul_eq_div]
+
+/-! ### spectral form `U diag(λ) Uᴴ` (Bingham parameter matrix, cACG covariance) -/
+
+/-- `U diag(λ) Uᴴ` -/
+noncomputable def specMat {D : Nat} (U : Matrix (Fin D) (Fin D) ℂ) (lam : Fin D → ℝ) :
+    Matrix (Fin D) (Fin D) ℂ :=
+  U * Matrix.diagonal (fun x => (lam x : ℂ)) * Uᴴ
+
+theorem specMat_apply {D : Nat} (U : Matrix (Fin D) (Fin D) ℂ) (mu : Fin D → ℝ) (d g : Fin D) :
+    specMat U mu d g = ∑ e, U d e * (mu e : ℂ) * star (U g e) := by
+  unfold specMat
+  rw [Matrix.mul_apply]
+  refine Finset.sum_congr rfl fun e _ => ?_
+  rw [Matrix.mul_diagonal, Matrix.conjTranspose_apply]
+
+theorem covariance_eq {D : Nat} (U : Matrix (Fin D) (Fin D) ℂ) (lam : Fin D → ℝ) (w z : Fin D) :
+    covariance (fun i j => U i j) lam w z = specMat U lam w z := by
+  unfold covariance specMat
+  rw [vsum_eq_sum, Matrix.mul_apply]
+  refine Finset.sum_congr rfl fun x _ => ?_
+  rw [Matrix.mul_diagonal, Matrix.conjTranspose_apply]
+  rfl
+
+theorem binghamQuad_eq {D : Nat} (U : Matrix (Fin D) (Fin D) ℂ) (lam : Fin D → ℝ) (y : Fin D → ℂ) :
+    binghamQuad (fun i j => U i j) lam y = (star y ⬝ᵥ (specMat U lam *ᵥ y)).re := by
+  unfold binghamQuad
+  simp only [vsum_eq_sum, covariance_eq, cx_re]
+  congr 1
+  simp only [dotProduct, mulVec, Finset.mul_sum, mul_assoc]
+  rfl
+
+theorem specMat_mul_inv {D : Nat} (U : Matrix (Fin D) (Fin D) ℂ) (lam : Fin D → ℝ) (hU : Uᴴ * U = 1)
+    (hl : ∀ e, lam e ≠ 0) : specMat U lam * specMat U (fun e => 1 / lam e) = 1 := by
+  have hU' : U * Uᴴ = 1 := mul_eq_one_comm.mp hU
+  unfold specMat
+  have hd : Matrix.diagonal (fun x => (lam x : ℂ)) * Matrix.diagonal (fun x => ((1 / lam x : ℝ) : ℂ)) = 1 := by
+    rw [Matrix.diagonal_mul_diagonal, ← Matrix.diagonal_one]
+    congr 1
+    funext x
+    have hc : (lam x : ℂ) ≠ 0 := by exact_mod_cast hl x
+    push_cast
+    field_simp
+  calc U * Matrix.diagonal (fun x => (lam x : ℂ)) * Uᴴ * (U * Matrix.diagonal (fun x => ((1 / lam x : ℝ) : ℂ)) * Uᴴ)
+      = U * (Matrix.diagonal (fun x => (lam x : ℂ)) * (Uᴴ * U) * Matrix.diagonal (fun x => ((1 / lam x : ℝ) : ℂ))) * Uᴴ := by
+        simp only [Matrix.mul_assoc]
+    _ = 1 := by rw [hU, Matrix.mul_one, hd, Matrix.mul_one, hU']
+
+theorem specMat_inv {D : Nat} (U : Matrix (Fin D) (Fin D) ℂ) (lam : Fin D → ℝ) (hU : Uᴴ * U = 1)
+    (hl : ∀ e, lam e ≠ 0) : (specMat U lam)⁻¹ = specMat U (fun e => 1 / lam e) :=
+  Matrix.inv_eq_right_inv (specMat_mul_inv U lam hU hl)
+
+theorem specMat_det {D : Nat} (U : Matrix (Fin D) (Fin D) ℂ) (lam : Fin D → ℝ) (hU : Uᴴ * U = 1) :
+    (specMat U lam).det = ((∏ e, lam e : ℝ) : ℂ) := by
+  have hU' : U * Uᴴ = 1 := mul_eq_one_comm.mp hU
+  have h1 : U.det * Uᴴ.det = 1 := by rw [← Matrix.det_mul, hU', Matrix.det_one]
+  unfold specMat
+  rw [Matrix.det_mul, Matrix.det_mul, Matrix.det_diagonal]
+  push_cast
+  calc U.det * (∏ e, (lam e : ℂ)) * Uᴴ.det = (U.det * Uᴴ.det) * ∏ e, (lam e : ℂ) := by ring
+    _ = ∏ e, (lam e : ℂ) := by rw [h1, one_mul]
+
+/-- the five-factor einsum of the cACG quadratic form is `zᴴ (U diag(1/λ) Uᴴ) z` -/
+theorem cacg_einsum_eq {D : Nat} (U : Matrix (Fin D) (Fin D) ℂ) (lam : Fin D → ℝ) (z : Fin D → ℂ) :
+    (∑ d, ∑ e, ∑ g, (starRingEnd ℂ) (z d) * U d e * ((1 / lam e : ℝ) : ℂ) * (starRingEnd ℂ) (U g e) * z g)
+      = star z ⬝ᵥ (specMat U (fun e => 1 / lam e) *ᵥ z) := by
+  simp only [dotProduct, mulVec, specMat_apply, Finset.mul_sum, Finset.sum_mul, Pi.star_apply]
+  refine Finset.sum_congr rfl fun d _ => ?_
+  rw [Finset.sum_comm]
+  refine Finset.sum_congr rfl fun e _ => ?_
+  refine Finset.sum_congr rfl fun g _ => ?_
+  simp only [Complex.star_def]
+  ring
+
+/-- `zᴴ (U diag(μ) Uᴴ) z = Σ_e μ_e |(Uᴴ z)_e|²` is a real number -/
+theorem specMat_quad_real {D : Nat} (U : Matrix (Fin D) (Fin D) ℂ) (mu : Fin D → ℝ) (z : Fin D → ℂ) :
+    star z ⬝ᵥ (specMat U mu *ᵥ z) = ((∑ e, mu e * Complex.normSq ((Uᴴ *ᵥ z) e) : ℝ) : ℂ) := by
+  have h : specMat U mu *ᵥ z = U *ᵥ (fun e => (mu e : ℂ) * (Uᴴ *ᵥ z) e) := by
+    unfold specMat
+    rw [← Matrix.mulVec_mulVec, ← Matrix.mulVec_mulVec]
+    congr 1
+    funext e
+    rw [Matrix.mulVec_diagonal]
+  have h2 : star z ᵥ* U = star (Uᴴ *ᵥ z) := by
+    rw [Matrix.star_mulVec, Matrix.conjTranspose_conjTranspose]
+  rw [h, Matrix.dotProduct_mulVec, h2]
+  push_cast
+  simp only [dotProduct, Pi.star_apply]
+  refine Finset.sum_congr rfl fun e _ => ?_
+  rw [Complex.normSq_eq_conj_mul_self, Complex.star_def]
+  ring
+
+/-! ### complex Bingham `log_pdf`, cACG `log_pdf` -/
+
+theorem binghamLogPdf_closed {D : Nat} (U : Matrix (Fin D) (Fin D) ℂ) (lam : Fin D → ℝ) (y : Fin D → ℂ)
+    (eps : ℝ) :
+    binghamLogPdf Real.pi eps (fun i j => U i j) lam y
+      = (star y ⬝ᵥ (specMat U lam *ᵥ y)).re
+        - Real.log (2 * Real.pi ^ D * ∑ j, Real.exp (removeDup eps lam j)
+            / ∏ k ∈ Finset.univ.erase j, (removeDup eps lam j - removeDup eps lam k)) := by
+  unfold binghamLogPdf binghamNorm
+  rw [binghamQuad_eq, binghamNormRaw_closed]
+  rfl
+
+theorem absC_ofReal (r : ℝ) (hr : 0 ≤ r) : absC (α := ℝ) ((r : ℝ) : ℂ) = r := by
+  unfold absC
+  simp only [cx_re, cx_im, Complex.ofReal_re, Complex.ofReal_im, mul_zero, add_zero, transc_sqrt_real]
+  exact Real.sqrt_mul_self hr
+
+/-- `normalize_observation` of a non-zero observation is `y / ‖y‖` -/
+theorem cacgNormalize_eq {D : Nat} (tiny : ℝ) (y : Fin D → ℂ) (hy : 0 < Real.sqrt (∑ d, ‖y d‖ ^ 2)) :
+    cacgNormalize tiny y = fun d => y d / ((Real.sqrt (∑ d, ‖y d‖ ^ 2) : ℝ) : ℂ) := by
+  unfold cacgNormalize
+  have hn : (vsum fun d => CxOps.re (α := ℝ) (y d) * CxOps.re (α := ℝ) (y d)
+      + CxOps.im (α := ℝ) (y d) * CxOps.im (α := ℝ) (y d)) = ∑ d, ‖y d‖ ^ 2 := by
+    rw [vsum_eq_sum]
+    refine Finset.sum_congr rfl fun d _ => ?_
+    rw [Complex.sq_norm, Complex.normSq_apply]; rfl
+  simp only [hn, transc_sqrt_real, if_pos hy, cx_ofReal]
+  funext d
+  push_cast
+  rw [mul_one_div]
+
+theorem cacgQuad_eq {D : Nat} (tiny : ℝ) (U : Matrix (Fin D) (Fin D) ℂ) (lam : Fin D → ℝ) (z : Fin D → ℂ)
+    (hU : Uᴴ * U = 1) (hl : ∀ e, 0 < lam e)
+    (hguard : tiny ≤ (star z ⬝ᵥ ((specMat U lam)⁻¹ *ᵥ z)).re) :
+    cacgQuad tiny (fun i j => U i j) lam z = (star z ⬝ᵥ ((specMat U lam)⁻¹ *ᵥ z)).re := by
+  rw [specMat_inv U lam hU (fun e => (hl e).ne')] at hguard ⊢
+  unfold cacgQuad
+  simp only [vsum_eq_sum, cx_conj, cx_ofReal]
+  rw [cacg_einsum_eq, specMat_quad_real] at *
+  have hr : 0 ≤ ∑ e, 1 / lam e * Complex.normSq ((Uᴴ *ᵥ z) e) :=
+    Finset.sum_nonneg fun e _ => mul_nonneg (one_div_nonneg.mpr (hl e).le) (Complex.normSq_nonneg _)
+  rw [absC_ofReal _ hr]
+  simp only [Complex.ofReal_re] at hguard ⊢
+  exact max_eq_left hguard
+
+theorem cacgLogPdf_closed {D : Nat} (tiny : ℝ) (U : Matrix (Fin D) (Fin D) ℂ) (lam : Fin D → ℝ)
+    (y z : Fin D → ℂ) (hU : Uᴴ * U = 1) (hl : ∀ e, 0 < lam e)
+    (hy : 0 < Real.sqrt (∑ d, ‖y d‖ ^ 2))
+    (hz : z = fun d => y d / ((Real.sqrt (∑ d, ‖y d‖ ^ 2) : ℝ) : ℂ))
+    (hguard : tiny ≤ (star z ⬝ᵥ ((specMat U lam)⁻¹ *ᵥ z)).re) :
+    cacgLogPdf tiny (fun i j => U i j) lam y
+      = -(D : ℝ) * Real.log (star z ⬝ᵥ ((specMat U lam)⁻¹ *ᵥ z)).re
+        - Real.log ((specMat U lam).det).re := by
+  unfold cacgLogPdf
+  rw [cacgNormalize_eq tiny y hy, ← hz, cacgQuad_eq tiny U lam z hU hl hguard, specMat_det U lam hU,
+    vsum_eq_sum, Complex.ofReal_re, Real.log_prod (fun e _ => (hl e).ne')]
+  rfl
+
+/-! ### von Mises–Fisher: the density itself, and the two-point sphere -/
+
+/-- the von Mises–Fisher density itself: `C_D(κ) exp(κ μᵀx)` with `C_D(κ) = κ^{D/2-1} / ((2π)^{D/2} I_{D/2-1}(κ))` -/
+theorem exp_vmfLogPdf {D : Nat} (μ y : Fin D → ℝ) (κ Inu tiny : ℝ) (hκ : 0 < κ) (hI : 0 < Inu)
+    (hy : tiny ≤ Real.sqrt (∑ d, y d ^ 2)) :
+    Real.exp (vmfLogPdf Real.pi tiny μ κ (Inu * Real.exp (-κ)) y)
+      = κ ^ ((D : ℝ) / 2 - 1) / ((2 * Real.pi) ^ ((D : ℝ) / 2) * Inu)
+        * Real.exp (κ * ∑ d, y d / Real.sqrt (∑ e, y e ^ 2) * μ d) := by
+  have h2pi : 0 < 2 * Real.pi := by positivity
+  rw [vmfLogPdf_closed μ y κ Inu tiny hκ hI hy, Real.rpow_def_of_pos hκ, Real.rpow_def_of_pos h2pi,
+    Real.exp_sub, Real.exp_sub, Real.exp_add, Real.exp_log hI]
+  have e1 : Real.exp ((D : ℝ) / 2 * Real.log (2 * Real.pi)) = Real.exp (Real.log (2 * Real.pi) * ((D : ℝ) / 2)) := by
+    rw [mul_comm]
+  have e2 : Real.exp (((D : ℝ) / 2 - 1) * Real.log κ) = Real.exp (Real.log κ * ((D : ℝ) / 2 - 1)) := by
+    rw [mul_comm]
+  rw [e1, e2]
+  have := (Real.exp_pos (Real.log (2 * Real.pi) * ((D : ℝ) / 2))).ne'
+  have := (Real.exp_pos (Real.log κ * ((D : ℝ) / 2 - 1))).ne'
+  field_simp
+
+/-- **`D = 1`: the von Mises–Fisher law on the two-point sphere `{+1, -1}` sums to one**, given the elementary
+closed form of the Bessel function of order `-1/2`, `I_{-1/2}(κ) = √(2/(πκ)) cosh κ` -/
+theorem vmf_D1_sum_one (m κ tiny : ℝ) (hm : m = 1 ∨ m = -1) (hκ : 0 < κ) (ht : tiny ≤ 1) :
+    Real.exp (vmfLogPdf (D := 1) Real.pi tiny (fun _ => m) κ
+        (Real.sqrt (2 / (Real.pi * κ)) * Real.cosh κ * Real.exp (-κ)) (fun _ => 1))
+      + Real.exp (vmfLogPdf (D := 1) Real.pi tiny (fun _ => m) κ
+        (Real.sqrt (2 / (Real.pi * κ)) * Real.cosh κ * Real.exp (-κ)) (fun _ => -1)) = 1 := by
+  have hpi := Real.pi_pos
+  have hI : 0 < Real.sqrt (2 / (Real.pi * κ)) * Real.cosh κ :=
+    mul_pos (Real.sqrt_pos.mpr (by positivity)) (Real.cosh_pos κ)
+  have hn1 : Real.sqrt (∑ d : Fin 1, (fun _ => (1 : ℝ)) d ^ 2) = 1 := by simp
+  have hn2 : Real.sqrt (∑ d : Fin 1, (fun _ => (-1 : ℝ)) d ^ 2) = 1 := by simp
+  rw [vmfLogPdf_closed _ _ κ _ tiny hκ hI (by rw [hn1]; exact ht),
+    vmfLogPdf_closed _ _ κ _ tiny hκ hI (by rw [hn2]; exact ht)]
+  simp only [Fin.sum_univ_one, Nat.cast_one, one_pow, neg_one_sq, Real.sqrt_one, div_one]
+  generalize hN : 1 / 2 * Real.log (2 * Real.pi) + Real.log (Real.sqrt (2 / (Real.pi * κ)) * Real.cosh κ)
+      - (1 / 2 - 1) * Real.log κ = N
+  rw [Real.exp_sub, Real.exp_sub, ← add_div]
+  -- the normaliser is `2 cosh κ`
+  have hnorm : Real.exp N = 2 * Real.cosh κ := by
+    rw [← hN]
+    have h4 : (2 * Real.pi) * (2 / (Real.pi * κ)) * κ = 4 := by field_simp; ring
+    have hs : Real.log (Real.sqrt (2 / (Real.pi * κ))) = 1 / 2 * Real.log (2 / (Real.pi * κ)) := by
+      rw [Real.log_sqrt (by positivity)]; ring
+    rw [Real.log_mul (Real.sqrt_pos.mpr (by positivity)).ne' (Real.cosh_pos κ).ne', hs]
+    have : 1 / 2 * Real.log (2 * Real.pi) + (1 / 2 * Real.log (2 / (Real.pi * κ)) + Real.log (Real.cosh κ))
+        - (1 / 2 - 1) * Real.log κ
+        = 1 / 2 * Real.log ((2 * Real.pi) * (2 / (Real.pi * κ)) * κ) + Real.log (Real.cosh κ) := by
+      have h2pi : 0 < 2 * Real.pi := by positivity
+      have hq : 0 < 2 / (Real.pi * κ) := by positivity
+      have hA : Real.log ((2 * Real.pi) * (2 / (Real.pi * κ)) * κ)
+          = Real.log (2 * Real.pi) + Real.log (2 / (Real.pi * κ)) + Real.log κ := by
+        rw [Real.log_mul (mul_pos h2pi hq).ne' hκ.ne', Real.log_mul h2pi.ne' hq.ne']
+      rw [hA]
+      ring
+    rw [this, h4, Real.exp_add, Real.exp_log (Real.cosh_pos κ)]
+    have : Real.exp (1 / 2 * Real.log 4) = 2 := by
+      have h : (4 : ℝ) = 2 ^ 2 := by norm_num
+      rw [h, Real.log_pow]; push_cast
+      rw [show (1 : ℝ) / 2 * (2 * Real.log 2) = Real.log 2 by ring, Real.exp_log (by norm_num)]
+    rw [this]
+  rw [hnorm, Real.cosh_eq]
+  rcases hm with rfl | rfl
+  · have : Real.exp (κ * (1 * 1)) + Real.exp (κ * (-1 * 1)) = Real.exp κ + Real.exp (-κ) := by
+      norm_num
+    rw [this]; have := Real.exp_pos κ; have := Real.exp_pos (-κ); field_simp
+  · have : Real.exp (κ * (1 * -1)) + Real.exp (κ * (-1 * -1)) = Real.exp (-κ) + Real.exp κ := by
+      norm_num
+    rw [this]; have := Real.exp_pos κ; have := Real.exp_pos (-κ); field_simp; ring
+
+/-! ### complex Bingham: Kent's formula at the stored eigenvalues (symmetry under the sort) -/
+
+/-- Kent's sum as a function of the *set* of eigenvalues -/
+noncomputable def kentSum (A : Finset ℝ) : ℝ := ∑ a ∈ A, Real.exp a / ∏ b ∈ A.erase a, (a - b)
+
+theorem kentSum_image {D : Nat} (f : Fin D → ℝ) (hf : Function.Injective f) :
+    ∑ j, Real.exp (f j) / ∏ k ∈ Finset.univ.erase j, (f j - f k) = kentSum (Finset.univ.image f) := by
+  unfold kentSum
+  rw [Finset.sum_image (fun a _ b _ h => hf h)]
+  refine Finset.sum_congr rfl fun j _ => ?_
+  rw [← Finset.image_erase hf, Finset.prod_image (fun a _ b _ h => hf h)]
+
+theorem image_sortedFam {D : Nat} (lam : Fin D → ℝ) :
+    Finset.univ.image (sortedFam lam) = Finset.univ.image lam := by
+  ext a
+  simp only [Finset.mem_image, Finset.mem_univ, true_and]
+  rw [← List.mem_ofFn, ← List.mem_ofFn]
+  exact (sortedFam_perm lam).mem_iff
+
+/-- pairwise gaps `≥ eps` of the input give consecutive gaps `≥ eps` of the sorted family -/
+theorem sorted_gaps_of_pairwise {D : Nat} (eps : ℝ) (lam : Fin D → ℝ)
+    (hgap : ∀ i j, i ≠ j → eps ≤ |lam i - lam j|) (j : Fin D) (h : j.val + 1 < D) :
+    sortedFam lam j + eps ≤ sortedFam lam ⟨j.val + 1, h⟩ := by
+  have h1 : (List.ofFn lam).Pairwise (fun a b => eps ≤ |a - b|) := by
+    rw [List.pairwise_ofFn]
+    intro i j hij
+    exact hgap i j hij.ne
+  have h2 : (sortAsc (List.ofFn lam)).Pairwise (fun a b => eps ≤ |a - b|) :=
+    ((sortAsc_perm _).pairwise_iff (fun {x y} hxy => by rwa [abs_sub_comm])).mpr h1
+  have h3 : (sortAsc (List.ofFn lam)).Pairwise (fun a b => a + eps ≤ b) := by
+    refine ((sortAsc_sorted _).and h2).imp ?_
+    rintro a b ⟨hab, hg⟩
+    rw [abs_sub_comm, abs_of_nonneg (by linarith)] at hg
+    linarith
+  exact getD_chain h3.isChain j.val (by rw [sorted_list_length]; exact h)
+
+/-- **in the property's domain** (pairwise eigenvalue gaps `≥ eps`, `eps > 0`; the code's `eps` is `1e-8`, the
+property's bound `1e-3`) `ComplexBingham.norm()` is Kent's formula at the stored eigenvalues themselves -/
+theorem binghamNorm_of_gaps {D : Nat} (eps : ℝ) (heps : 0 < eps) (lam : Fin D → ℝ)
+    (hgap : ∀ i j, i ≠ j → eps ≤ |lam i - lam j|) :
+    binghamNorm Real.pi eps lam
+      = 2 * Real.pi ^ D * ∑ j, Real.exp (lam j) / ∏ k ∈ Finset.univ.erase j, (lam j - lam k) := by
+  have hs : removeDup eps lam = sortedFam lam :=
+    removeDup_eq_sorted eps lam (sorted_gaps_of_pairwise eps lam hgap)
+  have hinj1 : Function.Injective (sortedFam lam) := by
+    rw [← hs]; exact (removeDup_strictMono eps heps lam).injective
+  have hinj2 : Function.Injective lam := by
+    intro i j hij
+    by_contra hne
+    have := hgap i j hne
+    rw [hij, sub_self, abs_zero] at this
+    linarith
+  unfold binghamNorm
+  rw [binghamNormRaw_closed, hs, kentSum_image _ hinj1, kentSum_image _ hinj2, image_sortedFam]
+
+/-! ### the real Gaussians integrate to one (Lebesgue measure on `ℝ^D`) -/
+section integrals
+open MeasureTheory ProbabilityTheory
+open scoped NNReal
+
+theorem inv_sqrt_eq_exp (x : ℝ) (hx : 0 < x) : (Real.sqrt x)⁻¹ = Real.exp (-(1 / 2) * Real.log x) := by
+  have h : -(1 / 2) * Real.log x = -Real.log (Real.sqrt x) := by rw [Real.log_sqrt hx.le]; ring
+  rw [h, Real.exp_neg, Real.exp_log (Real.sqrt_pos.mpr hx)]
+
+/-- the density of `DiagonalGaussian` is the product of Mathlib's one-dimensional Gaussian densities -/
+theorem exp_diagOfCov_eq_prod {D : Nat} (μ y c : Fin D → ℝ) (hc : ∀ d, 0 < c d) :
+    Real.exp (diagOfCov Real.pi μ c y) = ∏ d, gaussianPDFReal (μ d) (c d).toNNReal (y d) := by
+  rw [diagOfCov_closed μ y c hc]
+  have hf : ∀ d, gaussianPDFReal (μ d) (c d).toNNReal (y d)
+      = Real.exp (-(1 / 2) * Real.log (2 * Real.pi * c d) - (y d - μ d) ^ 2 / (2 * c d)) := by
+    intro d
+    have hpos : 0 < 2 * Real.pi * c d := by have := hc d; positivity
+    rw [gaussianPDFReal_def]
+    simp only [Real.coe_toNNReal _ (hc d).le]
+    rw [inv_sqrt_eq_exp _ hpos, ← Real.exp_add]
+    congr 1; ring
+  simp only [hf]
+  rw [← Real.exp_sum]
+  congr 1
+  rw [Real.log_prod (fun d _ => (hc d).ne')]
+  have hl : ∀ d, Real.log (2 * Real.pi * c d) = Real.log (2 * Real.pi) + Real.log (c d) := fun d =>
+    Real.log_mul (by positivity) (hc d).ne'
+  simp only [hl, Finset.sum_sub_distrib, mul_add, Finset.sum_add_distrib, Finset.sum_const, Finset.card_univ,
+    Fintype.card_fin, nsmul_eq_mul, ← Finset.mul_sum]
+  have : ∑ d, (y d - μ d) ^ 2 / (2 * c d) = 1 / 2 * ∑ d, (y d - μ d) ^ 2 / c d := by
+    rw [Finset.mul_sum]; refine Finset.sum_congr rfl fun d _ => ?_
+    have := (hc d).ne'; field_simp
+  rw [this]; ring
+
+/-- **`DiagonalGaussian` integrates to one** w.r.t. Lebesgue measure on `ℝ^D` -/
+theorem integral_exp_diagOfCov {D : Nat} (μ c : Fin D → ℝ) (hc : ∀ d, 0 < c d) :
+    ∫ y : Fin D → ℝ, Real.exp (diagOfCov Real.pi μ c y) = 1 := by
+  simp only [exp_diagOfCov_eq_prod μ _ c hc]
+  rw [integral_fintype_prod_volume_eq_prod (fun d x => gaussianPDFReal (μ d) (c d).toNNReal x)]
+  refine Finset.prod_eq_one fun d _ => ?_
+  apply integral_gaussianPDFReal_eq_one
+  exact (Real.toNNReal_pos.mpr (hc d)).ne'
+
+theorem sphOfCov_eq_diagOfCov {D : Nat} (μ y : Fin D → ℝ) (c : ℝ) (hc : 0 < c) :
+    sphOfCov Real.pi μ c y = diagOfCov Real.pi μ (fun _ => c) y := by
+  rw [sphOfCov_closed μ y c hc, diagOfCov_closed μ y _ (fun _ => hc)]
+  rw [Finset.prod_const, Finset.card_univ, Fintype.card_fin, Real.log_pow, ← Finset.sum_div]
+  field_simp
+
+/-- **`SphericalGaussian` integrates to one** -/
+theorem integral_exp_sphOfCov {D : Nat} (μ : Fin D → ℝ) (c : ℝ) (hc : 0 < c) :
+    ∫ y : Fin D → ℝ, Real.exp (sphOfCov Real.pi μ c y) = 1 := by
+  simp only [sphOfCov_eq_diagOfCov μ _ c hc]
+  exact integral_exp_diagOfCov μ _ (fun _ => hc)
+
+/-- linear change of variables on `ℝ^D` -/
+theorem integral_comp_matrix {D : Nat} (M : Matrix (Fin D) (Fin D) ℝ) (hM : M.det ≠ 0)
+    (g : (Fin D → ℝ) → ℝ) (hg : Measurable g) :
+    ∫ y, g (M *ᵥ y) = |M.det|⁻¹ * ∫ w, g w := by
+  have h := Real.map_matrix_volume_pi_eq_smul_volume_pi hM
+  have hmeas : Measurable (Matrix.toLin' M) := (Matrix.toLin' M).continuous_of_finiteDimensional.measurable
+  calc ∫ y, g (M *ᵥ y) = ∫ y, g (Matrix.toLin' M y) := by simp only [Matrix.toLin'_apply]
+    _ = ∫ w, g w ∂(Measure.map (Matrix.toLin' M) volume) :=
+        (integral_map hmeas.aemeasurable hg.aestronglyMeasurable).symm
+    _ = |M.det|⁻¹ * ∫ w, g w := by
+        rw [h, integral_smul_measure, ENNReal.toReal_ofReal (abs_nonneg _), abs_inv, smul_eq_mul]
+
+theorem stdPDF_eq (t : ℝ) :
+    gaussianPDFReal 0 1 t = Real.exp (-(1 / 2) * Real.log (2 * Real.pi) - t ^ 2 / 2) := by
+  have hpos : 0 < 2 * Real.pi := by positivity
+  rw [gaussianPDFReal_def]
+  simp only [NNReal.coe_one, mul_one, sub_zero]
+  rw [inv_sqrt_eq_exp _ hpos, ← Real.exp_add]
+  congr 1; ring
+
+/-- the density of the full-covariance `Gaussian` is `det P` times the standard normal density of the whitened
+observation `Pᵀ(y-μ)` -/
+theorem exp_gaussLogPdf_eq {D : Nat} (μ y : Fin D → ℝ) (P : Matrix (Fin D) (Fin D) ℝ) (ell : ℝ)
+    (htri : P.IsUpperTriangular) (hpos : ∀ i, 0 < P i i) (hell : ell = ∑ i, Real.log (P i i)) :
+    Real.exp (gaussLogPdf Real.pi μ (fun i j => P i j) ell y)
+      = P.det * ∏ d, gaussianPDFReal 0 1 ((Pᵀ *ᵥ (y - μ)) d) := by
+  have hd := det_pos_of_tri P htri hpos
+  unfold gaussLogPdf
+  rw [gaussTail_real, hell, sum_log_diag P htri hpos]
+  simp only [vsum_eq_sum, stdPDF_eq]
+  have hw : ∀ d, ∑ a, P a d * (y a - μ a) = (Pᵀ *ᵥ (y - μ)) d := by
+    intro d; simp [mulVec, dotProduct, Matrix.transpose_apply]
+  simp only [hw]
+  rw [← Real.exp_sum, Finset.sum_sub_distrib, Finset.sum_const, Finset.card_univ, Fintype.card_fin,
+    nsmul_eq_mul, ← Finset.sum_div]
+  conv_rhs => rw [← Real.exp_log hd]
+  rw [← Real.exp_add]
+  congr 1; ring
+
+theorem measurable_prod_stdPDF {D : Nat} :
+    Measurable fun w : Fin D → ℝ => ∏ d, gaussianPDFReal 0 1 (w d) :=
+  Finset.measurable_prod _ fun d _ => (measurable_gaussianPDFReal 0 1).comp (measurable_pi_apply d)
+
+/-- **the full-covariance `Gaussian` integrates to one** w.r.t. Lebesgue measure on `ℝ^D`, for every upper triangular
+factor `P` with positive diagonal and `log_det_precision_cholesky = Σ log P_ii` -/
+theorem integral_exp_gaussLogPdf {D : Nat} (μ : Fin D → ℝ) (P : Matrix (Fin D) (Fin D) ℝ) (ell : ℝ)
+    (htri : P.IsUpperTriangular) (hpos : ∀ i, 0 < P i i) (hell : ell = ∑ i, Real.log (P i i)) :
+    ∫ y : Fin D → ℝ, Real.exp (gaussLogPdf Real.pi μ (fun i j => P i j) ell y) = 1 := by
+  have hd := det_pos_of_tri P htri hpos
+  have hdT : Pᵀ.det ≠ 0 := by rw [Matrix.det_transpose]; exact hd.ne'
+  simp only [exp_gaussLogPdf_eq μ _ P ell htri hpos hell]
+  rw [integral_const_mul]
+  have h1 : ∫ y : Fin D → ℝ, ∏ d, gaussianPDFReal 0 1 ((Pᵀ *ᵥ (y - μ)) d)
+      = ∫ y : Fin D → ℝ, ∏ d, gaussianPDFReal 0 1 ((Pᵀ *ᵥ y) d) :=
+    integral_sub_right_eq_self (fun y : Fin D → ℝ => ∏ d, gaussianPDFReal 0 1 ((Pᵀ *ᵥ y) d)) μ
+  rw [h1, integral_comp_matrix Pᵀ hdT (fun w => ∏ d, gaussianPDFReal 0 1 (w d)) measurable_prod_stdPDF,
+    integral_fintype_prod_volume_eq_prod (fun _ x => gaussianPDFReal 0 1 x)]
+  simp only [integral_gaussianPDFReal_eq_one 0 one_ne_zero, Finset.prod_const_one, mul_one,
+    Matrix.det_transpose, abs_of_pos hd]
+  exact mul_inv_cancel₀ hd.ne'
+
+end integrals
+
+/-! ### the complex circularly symmetric Gaussian integrates to one (Lebesgue measure on `ℂ^D`) -/
+section cintegral
+open MeasureTheory
+open scoped ComplexOrder MatrixOrder
+
+theorem integral_complex_stdGauss : ∫ z : ℂ, Real.exp (-‖z‖ ^ 2) = Real.pi := by
+  have h := Complex.integral_exp_neg_rpow (p := 2) (by norm_num)
+  have e : (2 : ℝ) / 2 + 1 = 1 + 1 := by norm_num
+  rw [e, Real.Gamma_add_one (by norm_num), Real.Gamma_one] at h
+  simpa using h
+
+/-- complex-linear change of variables on `ℂ^D`: the real Jacobian of `w = B y` is `|det B|²` -/
+theorem integral_comp_cmatrix {D : Nat} (B : Matrix (Fin D) (Fin D) ℂ) (hB : B.det ≠ 0)
+    (g : (Fin D → ℂ) → ℝ) (hg : Measurable g) :
+    ∫ y, g (B *ᵥ y) = (Complex.normSq B.det)⁻¹ * ∫ w, g w := by
+  let T : (Fin D → ℂ) →ₗ[ℝ] (Fin D → ℂ) := (Matrix.toLin' B).restrictScalars ℝ
+  have hdet : LinearMap.det T = Complex.normSq B.det := by
+    rw [LinearMap.det_restrictScalars, LinearMap.det_toLin', Algebra.norm_complex_apply]
+  have hne : LinearMap.det T ≠ 0 := by rw [hdet]; exact (Complex.normSq_pos.mpr hB).ne'
+  have h := Measure.map_linearMap_addHaar_eq_smul_addHaar (volume : Measure (Fin D → ℂ)) hne
+  have hmeas : Measurable T := T.continuous_of_finiteDimensional.measurable
+  calc ∫ y, g (B *ᵥ y) = ∫ y, g (T y) := rfl
+    _ = ∫ w, g w ∂(Measure.map T volume) := (integral_map hmeas.aemeasurable hg.aestronglyMeasurable).symm
+    _ = (Complex.normSq B.det)⁻¹ * ∫ w, g w := by
+        rw [h, integral_smul_measure, ENNReal.toReal_ofReal (abs_nonneg _), hdet, abs_inv,
+          abs_of_nonneg (Complex.normSq_nonneg _), smul_eq_mul]
+
+theorem measurable_prod_cstd {D : Nat} :
+    Measurable fun w : Fin D → ℂ => ∏ d, Real.exp (-‖w d‖ ^ 2) :=
+  Finset.measurable_prod _ fun d _ => by fun_prop
+
+/-- `yᴴ (Bᴴ B) y = Σ_d |(B y)_d|²` -/
+theorem quad_conjTranspose_mul_self {D : Nat} (B : Matrix (Fin D) (Fin D) ℂ) (y : Fin D → ℂ) :
+    (star y ⬝ᵥ ((Bᴴ * B) *ᵥ y)).re = ∑ d, ‖(B *ᵥ y) d‖ ^ 2 := by
+  rw [← Matrix.mulVec_mulVec, Matrix.dotProduct_mulVec]
+  have h2 : star y ᵥ* Bᴴ = star (B *ᵥ y) := by rw [Matrix.star_mulVec]
+  rw [h2]
+  simp only [dotProduct, Pi.star_apply, Complex.re_sum]
+  refine Finset.sum_congr rfl fun d _ => ?_
+  rw [Complex.star_def, ← Complex.normSq_eq_conj_mul_self, Complex.ofReal_re, Complex.sq_norm]
+
+/-- **the complex circularly symmetric Gaussian integrates to one** w.r.t. Lebesgue measure on `ℂ^D`
+(with the externals at their contract values `s = Σ⁻¹ y`, `logdet = log|det Σ|`) -/
+theorem integral_exp_cgauss {D : Nat} (S : Matrix (Fin D) (Fin D) ℂ) (hS : S.PosDef) :
+    ∫ y : Fin D → ℂ, Real.exp (cgaussLogPdf Real.pi (Real.log ‖S.det‖) (S⁻¹ *ᵥ y) y) = 1 := by
+  have hu : IsUnit S.det := (Matrix.isUnit_iff_isUnit_det S).mp hS.isUnit
+  have hinv : S⁻¹.PosDef := hS.inv
+  obtain ⟨B, hB⟩ := CStarAlgebra.nonneg_iff_eq_star_mul_self.mp hinv.posSemidef.nonneg
+  rw [star_eq_conjTranspose] at hB
+  obtain ⟨hdre, _⟩ := posDef_det_re S hS
+  -- determinant bookkeeping
+  have hdetinv : (S⁻¹).det = (S.det)⁻¹ := by rw [Matrix.det_nonsing_inv, Ring.inverse_eq_inv']
+  have hnormsq : ((Complex.normSq B.det : ℝ) : ℂ) = (S.det)⁻¹ := by
+    rw [← hdetinv, hB, Matrix.det_mul, Matrix.det_conjTranspose, Complex.normSq_eq_conj_mul_self,
+      Complex.star_def]
+  have hSdet : S.det = ((S.det.re : ℝ) : ℂ) := by
+    obtain ⟨_, him⟩ := Complex.pos_iff.mp hS.det_pos
+    exact Complex.ext rfl (by simp [← him])
+  have hN : Complex.normSq B.det = (S.det.re)⁻¹ := by
+    have : ((Complex.normSq B.det : ℝ) : ℂ) = (((S.det.re)⁻¹ : ℝ) : ℂ) := by
+      rw [hnormsq]; conv_lhs => rw [hSdet]
+      push_cast; rfl
+    exact_mod_cast this
+  have hBdet : B.det ≠ 0 := by
+    intro h0
+    rw [h0, Complex.normSq_zero] at hN
+    exact (inv_pos.mpr hdre).ne' hN.symm
+  -- the integrand
+  have hint : ∀ y : Fin D → ℂ, Real.exp (cgaussLogPdf Real.pi (Real.log ‖S.det‖) (S⁻¹ *ᵥ y) y)
+      = ((Real.pi ^ D)⁻¹ * (S.det.re)⁻¹) * ∏ d, Real.exp (-‖(B *ᵥ y) d‖ ^ 2) := by
+    intro y
+    have hs : S *ᵥ (S⁻¹ *ᵥ y) = y := by
+      rw [Matrix.mulVec_mulVec, Matrix.mul_nonsing_inv S hu, Matrix.one_mulVec]
+    rw [cgaussLogPdf_closed S hS _ y _ hs rfl, hB, quad_conjTranspose_mul_self, ← Real.exp_sum,
+      Finset.sum_neg_distrib, sub_eq_add_neg, sub_eq_add_neg, Real.exp_add, Real.exp_add, Real.exp_neg,
+      Real.exp_log hdre, neg_mul, Real.exp_neg, Real.exp_nat_mul, Real.exp_log Real.pi_pos]
+  simp only [hint]
+  rw [integral_const_mul,
+    integral_comp_cmatrix B hBdet (fun w => ∏ d, Real.exp (-‖w d‖ ^ 2)) measurable_prod_cstd,
+    integral_fintype_prod_volume_eq_prod (fun _ (z : ℂ) => Real.exp (-‖z‖ ^ 2))]
+  simp only [integral_complex_stdGauss, Finset.prod_const, Finset.card_univ, Fintype.card_fin, hN, inv_inv]
+  have := Real.pi_pos
+  field_simp
+
+end cintegral
+
+/-! ### polar coordinates: from a Gaussian integral over the space to an integral over its unit sphere -/
+section polar
+open MeasureTheory Measure Metric Set Module
+
+theorem integral_polar {E : Type*} [NormedAddCommGroup E] [NormedSpace ℝ E] [MeasurableSpace E] [BorelSpace E]
+    [FiniteDimensional ℝ E] [Nontrivial E] (μ : Measure E) [μ.IsAddHaarMeasure] (F : E → ℝ)
+    (hF : Integrable F μ) :
+    ∫ x, F x ∂μ
+      = ∫ u : sphere (0 : E) 1, (∫ r in Ioi (0 : ℝ), r ^ (finrank ℝ E - 1) * F (r • u.1)) ∂μ.toSphere := by
+  have hmp := μ.measurePreserving_homeomorphUnitSphereProd
+  have hemb := (homeomorphUnitSphereProd E).measurableEmbedding
+  let G : sphere (0 : E) 1 × Ioi (0 : ℝ) → ℝ := fun p => F (p.2.1 • p.1.1)
+  have hG : ∀ x : ({0}ᶜ : Set E), G (homeomorphUnitSphereProd E x) = F x.1 := by
+    intro x
+    have := congrArg Subtype.val ((homeomorphUnitSphereProd E).symm_apply_apply x)
+    rw [homeomorphUnitSphereProd_symm_apply_coe] at this
+    simp only [G, this]
+  have hms : MeasurableSet ({0}ᶜ : Set E) := (measurableSet_singleton _).compl
+  have hint : Integrable G (μ.toSphere.prod (volumeIoiPow (finrank ℝ E - 1))) := by
+    rw [← hmp.integrable_comp_emb hemb]
+    have h1 : Integrable (F ∘ (↑) : ({0}ᶜ : Set E) → ℝ) (μ.comap (↑)) :=
+      (integrableOn_iff_comap_subtypeVal hms).mp hF.integrableOn
+    exact h1.congr (Filter.Eventually.of_forall fun x => (hG x).symm)
+  calc ∫ x, F x ∂μ = ∫ x : ({0}ᶜ : Set E), F x.1 ∂(μ.comap (↑)) := by
+        rw [integral_subtype_comap hms fun x => F x, restrict_compl_singleton]
+    _ = ∫ p, G p ∂(μ.toSphere.prod (volumeIoiPow (finrank ℝ E - 1))) := by
+        rw [← hmp.integral_comp hemb G]
+        exact integral_congr_ae (Filter.Eventually.of_forall fun x => (hG x).symm)
+    _ = ∫ u, ∫ r, G (u, r) ∂(volumeIoiPow (finrank ℝ E - 1)) ∂μ.toSphere := integral_prod _ hint
+    _ = _ := by
+        refine integral_congr_ae (Filter.Eventually.of_forall fun u => ?_)
+        simp only [G, Measure.volumeIoiPow, ENNReal.ofReal]
+        rw [integral_withDensity_eq_integral_smul,
+          integral_subtype_comap measurableSet_Ioi fun a => Real.toNNReal (a ^ (finrank ℝ E - 1)) • F (a • u.1)]
+        · refine setIntegral_congr_fun measurableSet_Ioi fun x hx => ?_
+          simp only [NNReal.smul_def, Real.coe_toNNReal _ (pow_nonneg (le_of_lt hx) _), smul_eq_mul]
+        · exact (measurable_subtype_coe.pow_const _).real_toNNReal
+
+/-- `∫_0^∞ r^{2D-1} e^{-b r²} dr = (D-1)! / (2 b^D)` -/
+theorem integral_pow_mul_exp_neg_mul_sq (D : ℕ) (hD : 0 < D) (b : ℝ) (hb : 0 < b) :
+    ∫ r in Ioi (0 : ℝ), r ^ (2 * D - 1) * Real.exp (-(r ^ 2 * b)) = ((D - 1).factorial : ℝ) / 2 * (b ^ D)⁻¹ := by
+  have h := integral_rpow_mul_exp_neg_mul_rpow (p := 2) (q := ((2 * D - 1 : ℕ) : ℝ)) (b := b) (by norm_num)
+    (by have : (0 : ℝ) ≤ ((2 * D - 1 : ℕ) : ℝ) := Nat.cast_nonneg _; linarith) hb
+  have hcast : ((2 * D - 1 : ℕ) : ℝ) = 2 * (D : ℝ) - 1 := by
+    rw [Nat.cast_sub (by omega)]; push_cast; ring
+  have e1 : (-(((2 * D - 1 : ℕ) : ℝ) + 1) / 2) = -(D : ℝ) := by rw [hcast]; ring
+  have e2 : ((((2 * D - 1 : ℕ) : ℝ) + 1) / 2) = ((D - 1 : ℕ) : ℝ) + 1 := by
+    rw [hcast, Nat.cast_sub (by omega)]; push_cast; ring
+  rw [e1, e2, Real.Gamma_nat_eq_factorial, Real.rpow_neg hb.le, Real.rpow_natCast] at h
+  rw [← h.trans (by ring : (b ^ D)⁻¹ * (1 / 2) * ((D - 1).factorial : ℝ) = ((D - 1).factorial : ℝ) / 2 * (b ^ D)⁻¹)]
+  refine setIntegral_congr_fun measurableSet_Ioi fun r hr => ?_
+  simp only [Real.rpow_natCast, Real.rpow_two]
+  congr 2; ring
+
+theorem sphere_integral_of_gaussian {E : Type*} [NormedAddCommGroup E] [NormedSpace ℝ E] [MeasurableSpace E]
+    [BorelSpace E] [FiniteDimensional ℝ E] [Nontrivial E] (μ : Measure E) [μ.IsAddHaarMeasure]
+    (q : E → ℝ) (D : ℕ) (hD : 0 < D) (hn : finrank ℝ E = 2 * D)
+    (hq2 : ∀ (r : ℝ) (x : E), q (r • x) = r ^ 2 * q x) (hpos : ∀ u : sphere (0 : E) 1, 0 < q u.1)
+    (hI : Integrable (fun x => Real.exp (-q x)) μ) :
+    ∫ x, Real.exp (-q x) ∂μ
+      = ((D - 1).factorial : ℝ) / 2 * ∫ u : sphere (0 : E) 1, ((q u.1) ^ D)⁻¹ ∂μ.toSphere := by
+  rw [integral_polar μ _ hI, ← integral_const_mul]
+  refine integral_congr_ae (Filter.Eventually.of_forall fun u => ?_)
+  simp only [hq2, hn]
+  exact integral_pow_mul_exp_neg_mul_sq D hD (q u.1) (hpos u)
+
+end polar
+
+/-! ### the complex angular central Gaussian integrates to the sphere area -/
+section cacgIntegral
+open MeasureTheory Measure Metric Set Module
+open scoped ComplexOrder MatrixOrder
+
+/-- `ℂ^D` with the Euclidean norm, as a real normed space -/
+abbrev CE (D : ℕ) := EuclideanSpace ℂ (Fin D)
+
+/-- the identification `(Fin D → ℂ) ≃ EuclideanSpace ℂ (Fin D)` -/
+noncomputable def cLin (D : ℕ) : (Fin D → ℂ) ≃L[ℝ] CE D := (PiLp.continuousLinearEquiv 2 ℝ (fun _ : Fin D => ℂ)).symm
+
+/-- Lebesgue measure of `ℂ^D = ℝ^{2D}` transported to the Euclidean space -/
+noncomputable def volE (D : ℕ) : Measure (CE D) := (volume : Measure (Fin D → ℂ)).map (cLin D)
+
+instance (D : ℕ) : (volE D).IsAddHaarMeasure := ContinuousLinearEquiv.isAddHaarMeasure_map _ _
+
+theorem cLin_ofLp (D : ℕ) (y : Fin D → ℂ) : (cLin D y).ofLp = y := rfl
+
+theorem integral_volE {D : ℕ} (F : CE D → ℝ) : ∫ x, F x ∂(volE D) = ∫ y : Fin D → ℂ, F (cLin D y) :=
+  (cLin D).toHomeomorph.measurableEmbedding.integral_map F
+
+theorem integrable_volE {D : ℕ} (F : CE D → ℝ) (h : Integrable (fun y : Fin D → ℂ => F (cLin D y))) :
+    Integrable F (volE D) :=
+  ((cLin D).toHomeomorph.measurableEmbedding.integrable_map_iff).mpr h
+
+theorem finrank_CE (D : ℕ) : finrank ℝ (CE D) = 2 * D := by
+  rw [← (cLin D).toLinearEquiv.finrank_eq, Module.finrank_pi_fintype]
+  simp [Complex.finrank_real_complex, mul_comm]
+
+
+/-- the quadratic form `zᴴ B⁻¹ z` on the Euclidean space -/
+noncomputable def cacgQ {D : ℕ} (U : Matrix (Fin D) (Fin D) ℂ) (lam : Fin D → ℝ) (x : CE D) : ℝ :=
+  (star x.ofLp ⬝ᵥ ((specMat U lam)⁻¹ *ᵥ x.ofLp)).re
+
+theorem specMat_posDef {D : ℕ} (U : Matrix (Fin D) (Fin D) ℂ) (lam : Fin D → ℝ) (hU : Uᴴ * U = 1)
+    (hl : ∀ e, 0 < lam e) : (specMat U lam).PosDef := by
+  have hd : (Matrix.diagonal fun x => (lam x : ℂ)).PosDef :=
+    Matrix.PosDef.diagonal fun i => by exact_mod_cast hl i
+  have hUu : IsUnit U := IsUnit.of_mul_eq_one_right _ hU
+  exact hd.mul_mul_conjTranspose_same (Matrix.vecMul_injective_of_isUnit hUu)
+
+theorem cacgQ_smul {D : ℕ} (U : Matrix (Fin D) (Fin D) ℂ) (lam : Fin D → ℝ) (r : ℝ) (x : CE D) :
+    cacgQ U lam (r • x) = r ^ 2 * cacgQ U lam x := by
+  unfold cacgQ
+  have h1 : (r • x).ofLp = (r : ℂ) • x.ofLp := by
+    ext d; simp [Complex.real_smul]
+  have h2 : star ((r : ℂ) • x.ofLp) = (r : ℂ) • star x.ofLp := by
+    ext d; simp
+  rw [h1, h2, Matrix.mulVec_smul, smul_dotProduct, dotProduct_smul, smul_smul, smul_eq_mul,
+    ← Complex.ofReal_mul, Complex.re_ofReal_mul]
+  ring
+
+theorem cacgQ_pos {D : ℕ} (U : Matrix (Fin D) (Fin D) ℂ) (lam : Fin D → ℝ) (hU : Uᴴ * U = 1)
+    (hl : ∀ e, 0 < lam e) (x : CE D) (hx : x ≠ 0) : 0 < cacgQ U lam x := by
+  have hinv := (specMat_posDef U lam hU hl).inv
+  have hne : x.ofLp ≠ 0 := fun h => hx (by ext d; simpa using congrFun h d)
+  exact (Complex.pos_iff.mp (hinv.dotProduct_mulVec_pos hne)).1
+
+/-- `∫_{ℂ^D} e^{-zᴴB⁻¹z} dz = π^D det B` (the complex Gaussian integral in its unnormalised form) -/
+theorem integral_exp_neg_cacgQ {D : ℕ} (U : Matrix (Fin D) (Fin D) ℂ) (lam : Fin D → ℝ) (hU : Uᴴ * U = 1)
+    (hl : ∀ e, 0 < lam e) :
+    Integrable (fun x => Real.exp (-cacgQ U lam x)) (volE D) ∧
+      ∫ x, Real.exp (-cacgQ U lam x) ∂(volE D) = Real.pi ^ D * ((specMat U lam).det).re := by
+  have hS := specMat_posDef U lam hU hl
+  have hu : IsUnit (specMat U lam).det := (Matrix.isUnit_iff_isUnit_det _).mp hS.isUnit
+  obtain ⟨hdre, _⟩ := posDef_det_re _ hS
+  have h1 := integral_exp_cgauss (specMat U lam) hS
+  have hI1 : Integrable fun y : Fin D → ℂ =>
+      Real.exp (cgaussLogPdf Real.pi (Real.log ‖(specMat U lam).det‖) ((specMat U lam)⁻¹ *ᵥ y) y) := by
+    by_contra h
+    rw [integral_undef h] at h1
+    exact zero_ne_one h1
+  have hpt : ∀ y : Fin D → ℂ, Real.exp (-cacgQ U lam (cLin D y))
+      = (Real.pi ^ D * ((specMat U lam).det).re)
+        * Real.exp (cgaussLogPdf Real.pi (Real.log ‖(specMat U lam).det‖) ((specMat U lam)⁻¹ *ᵥ y) y) := by
+    intro y
+    have hs : specMat U lam *ᵥ ((specMat U lam)⁻¹ *ᵥ y) = y := by
+      rw [Matrix.mulVec_mulVec, Matrix.mul_nonsing_inv _ hu, Matrix.one_mulVec]
+    have e1 : Real.exp (-(D : ℝ) * Real.log Real.pi) = (Real.pi ^ D)⁻¹ := by
+      rw [neg_mul, Real.exp_neg, Real.exp_nat_mul, Real.exp_log Real.pi_pos]
+    have e2 : Real.exp (-Real.log ((specMat U lam).det).re) = (((specMat U lam).det).re)⁻¹ := by
+      rw [Real.exp_neg, Real.exp_log hdre]
+    rw [cgaussLogPdf_closed _ hS _ y _ hs rfl, sub_eq_add_neg, sub_eq_add_neg, Real.exp_add, Real.exp_add,
+      e1, e2]
+    unfold cacgQ
+    rw [cLin_ofLp]
+    have := Real.pi_pos
+    field_simp
+  constructor
+  · apply integrable_volE
+    simp only [hpt]
+    exact hI1.const_mul _
+  · rw [integral_volE]
+    simp only [hpt]
+    rw [integral_const_mul, h1, mul_one]
+
+theorem nontrivial_CE {D : ℕ} (hD : 0 < D) : Nontrivial (CE D) := by
+  refine ⟨⟨0, EuclideanSpace.single ⟨0, hD⟩ 1, fun h => ?_⟩⟩
+  have := congrArg (fun x : CE D => x.ofLp ⟨0, hD⟩) h
+  simp at this
+
+/-- **the complex angular central Gaussian integrates to the sphere area `2π^D/(D-1)!`** over the Euclidean unit
+sphere of `ℂ^D`, w.r.t. the surface measure induced by Lebesgue measure (`Measure.toSphere`) -/
+theorem cacg_sphere_integral {D : ℕ} (hD : 0 < D) (tiny : ℝ) (U : Matrix (Fin D) (Fin D) ℂ) (lam : Fin D → ℝ)
+    (hU : Uᴴ * U = 1) (hl : ∀ e, 0 < lam e)
+    (hguard : ∀ u : sphere (0 : CE D) 1, tiny ≤ cacgQ U lam u.1) :
+    ∫ u : sphere (0 : CE D) 1, Real.exp (cacgLogPdf tiny (fun i j => U i j) lam u.1.ofLp) ∂(volE D).toSphere
+      = 2 * Real.pi ^ D / ((D - 1).factorial : ℝ) := by
+  have := nontrivial_CE hD
+  obtain ⟨hI, hval⟩ := integral_exp_neg_cacgQ U lam hU hl
+  obtain ⟨hdre, _⟩ := posDef_det_re _ (specMat_posDef U lam hU hl)
+  have hne : ∀ u : sphere (0 : CE D) 1, u.1 ≠ 0 := fun u h => by
+    have := u.2; rw [mem_sphere_zero_iff_norm, h, norm_zero] at this; exact zero_ne_one this
+  have hpos : ∀ u : sphere (0 : CE D) 1, 0 < cacgQ U lam u.1 := fun u => cacgQ_pos U lam hU hl _ (hne u)
+  have hsph := sphere_integral_of_gaussian (volE D) (cacgQ U lam) D hD (finrank_CE D) (cacgQ_smul U lam) hpos hI
+  rw [hval] at hsph
+  -- pointwise: the density on the sphere is `(zᴴB⁻¹z)^{-D} / det B`
+  have hpt : ∀ u : sphere (0 : CE D) 1,
+      Real.exp (cacgLogPdf tiny (fun i j => U i j) lam u.1.ofLp)
+        = (((specMat U lam).det).re)⁻¹ * ((cacgQ U lam u.1) ^ D)⁻¹ := by
+    intro u
+    have hn : Real.sqrt (∑ d, ‖u.1.ofLp d‖ ^ 2) = 1 := by
+      rw [← EuclideanSpace.norm_eq]; exact mem_sphere_zero_iff_norm.mp u.2
+    have hz : u.1.ofLp = fun d => u.1.ofLp d / ((Real.sqrt (∑ d, ‖u.1.ofLp d‖ ^ 2) : ℝ) : ℂ) := by
+      funext d; rw [hn]; simp
+    rw [cacgLogPdf_closed tiny U lam u.1.ofLp u.1.ofLp hU hl (by rw [hn]; exact one_pos) hz (hguard u)]
+    have hq := hpos u
+    unfold cacgQ at hq ⊢
+    rw [sub_eq_add_neg, Real.exp_add, Real.exp_neg (Real.log _), Real.exp_log hdre, neg_mul, Real.exp_neg,
+      Real.exp_nat_mul, Real.exp_log hq]
+    ring
+  simp only [hpt]
+  rw [integral_const_mul]
+  have hfact : (0 : ℝ) < ((D - 1).factorial : ℝ) := by exact_mod_cast Nat.factorial_pos _
+  have : ∫ u : sphere (0 : CE D) 1, ((cacgQ U lam u.1) ^ D)⁻¹ ∂(volE D).toSphere
+      = 2 * (Real.pi ^ D * ((specMat U lam).det).re) / ((D - 1).factorial : ℝ) := by
+    rw [hsph]; field_simp
+  rw [this]
+  field_simp
+
+theorem specMat_one {D : ℕ} : specMat (1 : Matrix (Fin D) (Fin D) ℂ) (fun _ => (1 : ℝ)) = 1 := by
+  unfold specMat
+  simp
+
+/-- the total mass of the surface measure is the area `2π^D/(D-1)!` of the unit sphere of `ℂ^D` -/
+theorem toSphere_volE_univ {D : ℕ} (hD : 0 < D) :
+    (volE D).toSphere.real univ = 2 * Real.pi ^ D / ((D - 1).factorial : ℝ) := by
+  have hq : ∀ u : sphere (0 : CE D) 1, cacgQ (1 : Matrix (Fin D) (Fin D) ℂ) (fun _ => (1 : ℝ)) u.1 = 1 := by
+    intro u
+    unfold cacgQ
+    rw [specMat_one, inv_one, Matrix.one_mulVec]
+    have hn : ‖u.1‖ = 1 := mem_sphere_zero_iff_norm.mp u.2
+    rw [EuclideanSpace.norm_eq, Real.sqrt_eq_one] at hn
+    have hsum : (star u.1.ofLp ⬝ᵥ u.1.ofLp).re = ∑ i, ‖u.1.ofLp i‖ ^ 2 := by
+      simp only [dotProduct, Pi.star_apply, Complex.re_sum]
+      refine Finset.sum_congr rfl fun d _ => ?_
+      rw [Complex.star_def, ← Complex.normSq_eq_conj_mul_self, Complex.ofReal_re, Complex.sq_norm]
+    rw [hsum, hn]
+  have h := cacg_sphere_integral hD 0 (1 : Matrix (Fin D) (Fin D) ℂ) (fun _ => (1 : ℝ)) (by simp)
+    (fun _ => one_pos) (fun u => by rw [hq u]; exact zero_le_one)
+  rw [← h]
+  have hpt : ∀ u : sphere (0 : CE D) 1,
+      Real.exp (cacgLogPdf 0 (fun i j => (1 : Matrix (Fin D) (Fin D) ℂ) i j) (fun _ => (1 : ℝ)) u.1.ofLp) = 1 := by
+    intro u
+    have hn : Real.sqrt (∑ d, ‖u.1.ofLp d‖ ^ 2) = 1 := by
+      rw [← EuclideanSpace.norm_eq]; exact mem_sphere_zero_iff_norm.mp u.2
+    have hz : u.1.ofLp = fun d => u.1.ofLp d / ((Real.sqrt (∑ d, ‖u.1.ofLp d‖ ^ 2) : ℝ) : ℂ) := by
+      funext d; rw [hn]; simp
+    have hq' := hq u
+    unfold cacgQ at hq'
+    rw [cacgLogPdf_closed 0 1 (fun _ => 1) u.1.ofLp u.1.ofLp (by simp) (fun _ => one_pos)
+      (by rw [hn]; exact one_pos) hz (by rw [hq']; exact zero_le_one), hq', specMat_one]
+    simp
+  simp only [hpt]
+  simp [Measure.real]
+
+end cacgIntegral
+
+/-! ### the complex Watson density integrates to one -/
+section watsonIntegral
+open MeasureTheory Measure Metric Set Module
+open scoped ComplexOrder MatrixOrder
+
+/-- `∫_ℂ |z|^{2m} e^{-|z|²} dz = π m!` -/
+theorem integral_complex_pow_gauss (m : ℕ) :
+    ∫ z : ℂ, ‖z‖ ^ (2 * m) * Real.exp (-‖z‖ ^ 2) = Real.pi * (m.factorial : ℝ) := by
+  have h := Complex.integral_rpow_mul_exp_neg_rpow (p := 2) (q := ((2 * m : ℕ) : ℝ)) (by norm_num)
+    (by have : (0 : ℝ) ≤ ((2 * m : ℕ) : ℝ) := Nat.cast_nonneg _; linarith)
+  have e : (((2 * m : ℕ) : ℝ) + 2) / 2 = (m : ℝ) + 1 := by push_cast; ring
+  rw [e, Real.Gamma_nat_eq_factorial] at h
+  simp only [Real.rpow_natCast, Real.rpow_two] at h
+  rw [h]; ring
+
+/-- `∫_{ℂ^{n+1}} |x_0|^{2m} e^{-|x|²} dx = π^{n+1} m!` -/
+theorem integral_coord_pow_gauss (n m : ℕ) :
+    ∫ x : Fin (n + 1) → ℂ, ‖x 0‖ ^ (2 * m) * Real.exp (-∑ d, ‖x d‖ ^ 2)
+      = Real.pi ^ (n + 1) * (m.factorial : ℝ) := by
+  let f : Fin (n + 1) → ℂ → ℝ :=
+    Fin.cons (fun z => ‖z‖ ^ (2 * m) * Real.exp (-‖z‖ ^ 2)) (fun _ z => Real.exp (-‖z‖ ^ 2))
+  have hf : ∀ x : Fin (n + 1) → ℂ, ‖x 0‖ ^ (2 * m) * Real.exp (-∑ d, ‖x d‖ ^ 2) = ∏ d, f d (x d) := by
+    intro x
+    rw [Fin.prod_univ_succ, Fin.sum_univ_succ, neg_add, Real.exp_add, ← Finset.sum_neg_distrib, Real.exp_sum]
+    simp only [f, Fin.cons_zero, Fin.cons_succ]
+    ring
+  simp only [hf]
+  rw [integral_fintype_prod_volume_eq_prod f, Fin.prod_univ_succ]
+  simp only [f, Fin.cons_zero, Fin.cons_succ, integral_complex_pow_gauss, integral_complex_stdGauss,
+    Finset.prod_const, Finset.card_univ, Fintype.card_fin]
+  ring
+
+theorem star_dot_self_re {D : ℕ} (x : Fin D → ℂ) : (star x ⬝ᵥ x).re = ∑ d, ‖x d‖ ^ 2 := by
+  simp only [dotProduct, Pi.star_apply, Complex.re_sum]
+  refine Finset.sum_congr rfl fun d _ => ?_
+  rw [Complex.star_def, ← Complex.normSq_eq_conj_mul_self, Complex.ofReal_re, Complex.sq_norm]
+
+theorem unitary_norm_sq {D : ℕ} (U : Matrix (Fin D) (Fin D) ℂ) (hU : Uᴴ * U = 1) (x : Fin D → ℂ) :
+    ∑ d, ‖(U *ᵥ x) d‖ ^ 2 = ∑ d, ‖x d‖ ^ 2 := by
+  rw [← quad_conjTranspose_mul_self, hU, Matrix.one_mulVec, star_dot_self_re]
+
+theorem unitary_col_inner {n : ℕ} (U : Matrix (Fin (n + 1)) (Fin (n + 1)) ℂ) (hU : Uᴴ * U = 1)
+    (x : Fin (n + 1) → ℂ) : ∑ d, (U *ᵥ x) d * star (U d 0) = x 0 := by
+  have h : ∀ e, ∑ d, star (U d 0) * U d e = (1 : Matrix (Fin (n + 1)) (Fin (n + 1)) ℂ) 0 e := by
+    intro e
+    rw [← hU, Matrix.mul_apply]
+    refine Finset.sum_congr rfl fun d _ => ?_
+    rw [Matrix.conjTranspose_apply]
+  simp only [mulVec, dotProduct, Finset.sum_mul]
+  rw [Finset.sum_comm]
+  have : ∀ e, ∑ d, U d e * x e * star (U d 0) = x e * (1 : Matrix (Fin (n + 1)) (Fin (n + 1)) ℂ) 0 e := by
+    intro e
+    rw [← h e, Finset.mul_sum]
+    refine Finset.sum_congr rfl fun d _ => by ring
+  simp only [this, Matrix.one_apply]
+  simp
+
+theorem unitary_normSq_det {D : ℕ} (U : Matrix (Fin D) (Fin D) ℂ) (hU : Uᴴ * U = 1) :
+    Complex.normSq U.det = 1 := by
+  have h := congrArg Matrix.det hU
+  rw [Matrix.det_mul, Matrix.det_conjTranspose, Matrix.det_one] at h
+  have : ((Complex.normSq U.det : ℝ) : ℂ) = 1 := by
+    rw [Complex.normSq_eq_conj_mul_self, ← h, Complex.star_def]
+  exact_mod_cast this
+
+/-- `∫_{ℂ^{n+1}} |wᴴy|^{2m} e^{-|y|²} dy = π^{n+1} m!` for `w` the first column of a unitary matrix -/
+theorem integral_mode_pow_gauss {n : ℕ} (m : ℕ) (U : Matrix (Fin (n + 1)) (Fin (n + 1)) ℂ) (hU : Uᴴ * U = 1) :
+    ∫ y : Fin (n + 1) → ℂ, ‖∑ d, y d * star (U d 0)‖ ^ (2 * m) * Real.exp (-∑ d, ‖y d‖ ^ 2)
+      = Real.pi ^ (n + 1) * (m.factorial : ℝ) := by
+  have hdet : U.det ≠ 0 := by
+    intro h0
+    have := unitary_normSq_det U hU
+    rw [h0, Complex.normSq_zero] at this
+    exact zero_ne_one this
+  have hg : Measurable fun y : Fin (n + 1) → ℂ =>
+      ‖∑ d, y d * star (U d 0)‖ ^ (2 * m) * Real.exp (-∑ d, ‖y d‖ ^ 2) := by fun_prop
+  have h := integral_comp_cmatrix U hdet _ hg
+  rw [unitary_normSq_det U hU, inv_one, one_mul] at h
+  rw [← h]
+  simp only [unitary_col_inner U hU, unitary_norm_sq U hU]
+  exact integral_coord_pow_gauss n m
+
+/-- `|wᴴx|` on the Euclidean space, `w` the first column of `U` -/
+noncomputable def modeAbs {n : ℕ} (U : Matrix (Fin (n + 1)) (Fin (n + 1)) ℂ) (x : CE (n + 1)) : ℝ :=
+  ‖∑ d, x.ofLp d * star (U d 0)‖
+
+theorem modeAbs_smul {n : ℕ} (U : Matrix (Fin (n + 1)) (Fin (n + 1)) ℂ) (r : ℝ) (hr : 0 < r) (x : CE (n + 1)) :
+    modeAbs U (r • x) = r * modeAbs U x := by
+  unfold modeAbs
+  have : ∑ d, (r • x).ofLp d * star (U d 0) = (r : ℂ) * ∑ d, x.ofLp d * star (U d 0) := by
+    rw [Finset.mul_sum]
+    refine Finset.sum_congr rfl fun d _ => ?_
+    simp [Complex.real_smul, mul_assoc]
+  rw [this, norm_mul, Complex.norm_real, Real.norm_of_nonneg hr.le]
+
+theorem norm_sq_CE {D : ℕ} (x : CE D) : ‖x‖ ^ 2 = ∑ d, ‖x.ofLp d‖ ^ 2 := by
+  rw [EuclideanSpace.norm_eq, Real.sq_sqrt (Finset.sum_nonneg fun d _ => by positivity)]
+
+theorem integral_modeAbs_gauss {n : ℕ} (m : ℕ) (U : Matrix (Fin (n + 1)) (Fin (n + 1)) ℂ) (hU : Uᴴ * U = 1) :
+    Integrable (fun x : CE (n + 1) => modeAbs U x ^ (2 * m) * Real.exp (-‖x‖ ^ 2)) (volE (n + 1)) ∧
+    ∫ x : CE (n + 1), modeAbs U x ^ (2 * m) * Real.exp (-‖x‖ ^ 2) ∂(volE (n + 1))
+      = Real.pi ^ (n + 1) * (m.factorial : ℝ) := by
+  have hval := integral_mode_pow_gauss m U hU
+  have hpt : ∀ y : Fin (n + 1) → ℂ, modeAbs U (cLin (n + 1) y) ^ (2 * m) * Real.exp (-‖cLin (n + 1) y‖ ^ 2)
+      = ‖∑ d, y d * star (U d 0)‖ ^ (2 * m) * Real.exp (-∑ d, ‖y d‖ ^ 2) := by
+    intro y
+    rw [norm_sq_CE]
+    rfl
+  have hpos : Real.pi ^ (n + 1) * (m.factorial : ℝ) ≠ 0 := by
+    have := Real.pi_pos
+    have : (0 : ℝ) < (m.factorial : ℝ) := by exact_mod_cast Nat.factorial_pos _
+    positivity
+  constructor
+  · apply integrable_volE
+    simp only [hpt]
+    by_contra h
+    rw [integral_undef h] at hval
+    exact hpos hval.symm
+  · rw [integral_volE]
+    simp only [hpt]
+    exact hval
+
+/-- moments of `|wᴴu|²` over the unit sphere of `ℂ^{n+1}`: `∫_S |wᴴu|^{2m} dS = 2π^{n+1} m!/(m+n)!` -/
+theorem sphere_moment {n : ℕ} (m : ℕ) (U : Matrix (Fin (n + 1)) (Fin (n + 1)) ℂ) (hU : Uᴴ * U = 1) :
+    ∫ u : sphere (0 : CE (n + 1)) 1, modeAbs U u.1 ^ (2 * m) ∂(volE (n + 1)).toSphere
+      = 2 * Real.pi ^ (n + 1) * (m.factorial : ℝ) / ((m + n).factorial : ℝ) := by
+  have := nontrivial_CE (D := n + 1) (Nat.succ_pos n)
+  obtain ⟨hI, hval⟩ := integral_modeAbs_gauss m U hU
+  rw [integral_polar (volE (n + 1)) _ hI, finrank_CE] at hval
+  have hinner : ∀ u : sphere (0 : CE (n + 1)) 1,
+      ∫ r in Ioi (0 : ℝ), r ^ (2 * (n + 1) - 1) * (modeAbs U (r • u.1) ^ (2 * m) * Real.exp (-‖r • u.1‖ ^ 2))
+        = ((m + n).factorial : ℝ) / 2 * modeAbs U u.1 ^ (2 * m) := by
+    intro u
+    have hu : ‖u.1‖ = 1 := mem_sphere_zero_iff_norm.mp u.2
+    have h := integral_pow_mul_exp_neg_mul_sq (m + n + 1) (Nat.succ_pos _) 1 one_pos
+    rw [one_pow, inv_one, mul_one, Nat.add_sub_cancel] at h
+    rw [← h, ← integral_mul_const]
+    refine setIntegral_congr_fun measurableSet_Ioi fun r hr => ?_
+    have hr' : (0 : ℝ) < r := hr
+    simp only [modeAbs_smul U r hr', norm_smul, hu, mul_one, Real.norm_of_nonneg hr'.le, mul_pow]
+    have e : 2 * (m + n + 1) - 1 = (2 * (n + 1) - 1) + 2 * m := by omega
+    rw [e, pow_add]
+    ring
+  simp only [hinner] at hval
+  rw [integral_const_mul] at hval
+  have hfact : (0 : ℝ) < ((m + n).factorial : ℝ) := by exact_mod_cast Nat.factorial_pos _
+  field_simp at hval ⊢
+  linarith
+
+/-- Kummer's function `M(1; n+1; κ) = Σ_m κ^m / (n+1)_m = Σ_m κ^m n!/(m+n)!` (what `scipy.special.hyp1f1(1, D, κ)`
+computes for `D = n+1`; Mathlib has no hypergeometric functions, so it is defined by its series) -/
+noncomputable def kummerM1 (n : ℕ) (κ : ℝ) : ℝ := ∑' m : ℕ, κ ^ m * (n.factorial : ℝ) / ((m + n).factorial : ℝ)
+
+theorem summable_kummer (n : ℕ) (κ : ℝ) (hκ : 0 ≤ κ) (c : ℝ) (hc : 0 ≤ c) :
+    Summable fun m : ℕ => c * κ ^ m / ((m + n).factorial : ℝ) := by
+  refine Summable.of_nonneg_of_le (fun m => by positivity) (fun m => ?_)
+    ((Real.summable_pow_div_factorial κ).mul_left c)
+  have h1 : ((m.factorial : ℕ) : ℝ) ≤ ((m + n).factorial : ℝ) := by
+    exact_mod_cast Nat.factorial_le (Nat.le_add_right m n)
+  have h0 : (0 : ℝ) < (m.factorial : ℝ) := by exact_mod_cast Nat.factorial_pos _
+  rw [mul_div_assoc]
+  exact mul_le_mul_of_nonneg_left (div_le_div_of_nonneg_left (by positivity) h0 h1) hc
+
+/-- `∫_S e^{κ|wᴴu|²} dS = Σ_m 2π^{n+1} κ^m/(m+n)!` -/
+theorem sphere_integral_exp_mode {n : ℕ} (κ : ℝ) (hκ : 0 ≤ κ) (U : Matrix (Fin (n + 1)) (Fin (n + 1)) ℂ)
+    (hU : Uᴴ * U = 1) :
+    ∫ u : sphere (0 : CE (n + 1)) 1, Real.exp (κ * modeAbs U u.1 ^ 2) ∂(volE (n + 1)).toSphere
+      = ∑' m : ℕ, 2 * Real.pi ^ (n + 1) * κ ^ m / ((m + n).factorial : ℝ) := by
+  let F : ℕ → sphere (0 : CE (n + 1)) 1 → ℝ := fun m u => κ ^ m / (m.factorial : ℝ) * modeAbs U u.1 ^ (2 * m)
+  have hmom : ∀ m, ∫ u, F m u ∂(volE (n + 1)).toSphere
+      = 2 * Real.pi ^ (n + 1) * κ ^ m / ((m + n).factorial : ℝ) := by
+    intro m
+    have h0 : (0 : ℝ) < (m.factorial : ℝ) := by exact_mod_cast Nat.factorial_pos _
+    simp only [F]
+    rw [integral_const_mul, sphere_moment m U hU]
+    field_simp
+  have hint : ∀ m, Integrable (F m) (volE (n + 1)).toSphere := by
+    intro m
+    have hval := sphere_moment m U hU
+    have hpos : 2 * Real.pi ^ (n + 1) * (m.factorial : ℝ) / ((m + n).factorial : ℝ) ≠ 0 := by
+      have := Real.pi_pos
+      have : (0 : ℝ) < (m.factorial : ℝ) := by exact_mod_cast Nat.factorial_pos _
+      have : (0 : ℝ) < ((m + n).factorial : ℝ) := by exact_mod_cast Nat.factorial_pos _
+      positivity
+    have : Integrable (fun u : sphere (0 : CE (n + 1)) 1 => modeAbs U u.1 ^ (2 * m)) (volE (n + 1)).toSphere := by
+      by_contra h
+      rw [integral_undef h] at hval
+      exact hpos hval.symm
+    exact this.const_mul _
+  have hnn : ∀ m u, 0 ≤ F m u := fun m u => by
+    simp only [F]; have : 0 ≤ modeAbs U u.1 := norm_nonneg _; positivity
+  have hsum : Summable fun m => ∫ u, ‖F m u‖ ∂(volE (n + 1)).toSphere := by
+    have : ∀ m, ∫ u, ‖F m u‖ ∂(volE (n + 1)).toSphere = 2 * Real.pi ^ (n + 1) * κ ^ m / ((m + n).factorial : ℝ) := by
+      intro m
+      rw [← hmom m]
+      refine integral_congr_ae (Filter.Eventually.of_forall fun u => ?_)
+      exact Real.norm_of_nonneg (hnn m u)
+    simp only [this]
+    exact summable_kummer n κ hκ (2 * Real.pi ^ (n + 1)) (by have := Real.pi_pos; positivity)
+  have h := integral_tsum_of_summable_integral_norm hint hsum
+  simp only [hmom] at h
+  rw [h]
+  refine integral_congr_ae (Filter.Eventually.of_forall fun u => ?_)
+  simp only [F]
+  rw [Real.exp_eq_exp_ℝ, NormedSpace.exp_eq_tsum_div]
+  refine tsum_congr fun m => ?_
+  rw [mul_pow, ← pow_mul]
+  ring
+
+/-- **the complex Watson density integrates to one** over the Euclidean unit sphere of `ℂ^{n+1}` (surface measure
+`Measure.toSphere` of Lebesgue measure), for every concentration `κ ≥ 0` and every mode that is the first column of a
+unitary matrix, given the contract `hyp1f1(1, n+1, κ) = M(1; n+1; κ)` -/
+theorem watson_sphere_integral {n : ℕ} (κ : ℝ) (hκ : 0 ≤ κ) (U : Matrix (Fin (n + 1)) (Fin (n + 1)) ℂ)
+    (hU : Uᴴ * U = 1) :
+    ∫ u : sphere (0 : CE (n + 1)) 1,
+        Real.exp (watsonLogPdf Real.pi (fun d => U d 0) κ (kummerM1 n κ) u.1.ofLp) ∂(volE (n + 1)).toSphere
+      = 1 := by
+  have hpi := Real.pi_pos
+  have hfac : (0 : ℝ) < (n.factorial : ℝ) := by exact_mod_cast Nat.factorial_pos _
+  -- M ≥ its zeroth term 1 > 0
+  have hsumK : Summable fun m : ℕ => κ ^ m * (n.factorial : ℝ) / ((m + n).factorial : ℝ) := by
+    have := summable_kummer n κ hκ (n.factorial : ℝ) hfac.le
+    refine this.congr fun m => by ring
+  have hM : 0 < kummerM1 n κ := by
+    unfold kummerM1
+    refine hsumK.tsum_pos (fun m => by positivity) 0 ?_
+    simp [hfac.ne']
+  have hA : 0 < 2 * Real.pi ^ (n + 1) / ((n + 1 - 1).factorial : ℝ) * kummerM1 n κ := by
+    rw [Nat.add_sub_cancel]; positivity
+  have hpt : ∀ u : sphere (0 : CE (n + 1)) 1,
+      Real.exp (watsonLogPdf Real.pi (fun d => U d 0) κ (kummerM1 n κ) u.1.ofLp)
+        = (2 * Real.pi ^ (n + 1) / ((n + 1 - 1).factorial : ℝ) * kummerM1 n κ)⁻¹
+          * Real.exp (κ * modeAbs U u.1 ^ 2) := by
+    intro u
+    rw [watsonLogPdf_closed, Real.exp_sub, Real.exp_log hA]
+    unfold modeAbs
+    field_simp
+  simp only [hpt]
+  rw [integral_const_mul, sphere_integral_exp_mode κ hκ U hU, Nat.add_sub_cancel]
+  have hK : ∑' m : ℕ, 2 * Real.pi ^ (n + 1) * κ ^ m / ((m + n).factorial : ℝ)
+      = 2 * Real.pi ^ (n + 1) / (n.factorial : ℝ) * kummerM1 n κ := by
+    unfold kummerM1
+    rw [← tsum_mul_left]
+    refine tsum_congr fun m => ?_
+    field_simp
+  rw [hK]
+  have := hM.ne'
+  field_simp
+
+end watsonIntegral
 
 end PbBss.Dist
